@@ -429,7 +429,7 @@ func (c *ctx) genStructObject(depth int, id, force string) *Shape {
 	r := c.r
 	name := force
 	if name == "" {
-		name = wk.Pick(r, []string{"P1", "P1", "*P1", "P2", "P3", "P5", "*P5", "P6", "P7", "P8", "P9", "P12", "P13"})
+		name = wk.Pick(r, []string{"P1", "P1", "*P1", "P2", "P3", "P5", "*P5", "P6", "P7", "P8", "P9", "P12", "P13", "P21"})
 	}
 	s := &Shape{Kind: KObject, ID: id, Struct: name}
 	if c.cfg.TypedVariants && !c.cfg.Describable && r.Chance(25) {
@@ -531,6 +531,19 @@ func (c *ctx) genStructObject(depth int, id, force string) *Shape {
 				s.Props[1].T = wide(-3, 1<<41)
 			}
 		}
+	case "P21":
+		bounded := func(lo, hi int64) *Shape {
+			if c.cfg.Describable || r.Chance(50) {
+				a, b := lo+r.I64n(hi-lo+1), lo+r.I64n(hi-lo+1)
+				if a > b {
+					a, b = b, a
+				}
+				return &Shape{Kind: KInt, Min: ip(a), Max: ip(b)}
+			}
+			// wider than the field (or no bounds at all): what the field cannot hold is refused
+			return wk.Pick(r, []*Shape{{Kind: KInt}, {Kind: KInt, Min: ip(lo - 10)}, {Kind: KInt, Min: ip(0), Max: ip(hi * 4)}})
+		}
+		s.Props = []*Prop{{Name: "a", T: bounded(-2147483648, 2147483647)}, {Name: "b", T: bounded(0, 4294967295)}, {Name: "c", T: bounded(-128, 127)}}
 	case "P12":
 		s.Props = []*Prop{{Name: "mid", T: c.genStructObject(depth+1, c.nextID("P3o"), "P3")}, {Name: "other", T: c.genStructObject(depth+1, c.nextID("P3o"), "P3")}, {Name: "tag", T: strT()}}
 	}
@@ -822,7 +835,7 @@ func GenObjectStandalone(r *wk.Rand, cfg Cfg) *Shape {
 var pointerFields = map[string]map[string]bool{
 	"P1": {"c": true, "d": true}, "*P1": {"c": true, "d": true}, "P3": {"pinner": true, "n": true},
 	"P4b": {"z": true}, "P7": {"opt": true, "choice": true}, "P2": {"extra": true},
-	"P10": {"a": true, "b": true, "c": true}, "*P10": {"a": true, "b": true, "c": true}, "P11": {"n": true, "m": true}, "P12": {"tag": true}, "P13": {"limit": true}, "P16": {"x": true, "y": true}, "P18": {"next": true}, "P17": {"x": true, "z": true},
+	"P10": {"a": true, "b": true, "c": true}, "*P10": {"a": true, "b": true, "c": true}, "P11": {"n": true, "m": true}, "P12": {"tag": true}, "P13": {"limit": true}, "P21": {"a": true, "b": true, "c": true}, "P16": {"x": true, "y": true}, "P18": {"next": true}, "P17": {"x": true, "z": true},
 }
 
 // PointerField reports whether the property is mapped to a pointer field of the pool struct.
